@@ -112,7 +112,7 @@ func verifC18Enum(alpha []byte, l int, f func(w []byte)) {
 	}
 }
 
-func verifC18Case(id, re string, alpha []byte, la, lf int, costLimit float64) (line string) {
+func verifC18Case(id, re string, alpha []byte, la, lf int, costLimit float64, probes [][]byte) (line string) {
 	defer func() {
 		if r := recover(); r != nil {
 			line = fmt.Sprintf("%s PANIC %v", id, r)
@@ -167,7 +167,7 @@ func verifC18Case(id, re string, alpha []byte, la, lf int, costLimit float64) (l
 	})
 	// what the search finds in every text
 	nobs, fmin, fmax, bad := 0, -1, -1, ""
-	verifC18Enum(alpha, lf, func(t []byte) {
+	check := func(t []byte) {
 		for _, loc := range rx.FindAllIndex(t, -1) {
 			n := loc[1] - loc[0]
 			nobs++
@@ -185,7 +185,12 @@ func verifC18Case(id, re string, alpha []byte, la, lf int, costLimit float64) (l
 				}
 			}
 		}
-	})
+	}
+	verifC18Enum(alpha, lf, check)
+	// texts given with the case (constructed matches that are longer than the enumeration reaches)
+	for _, t := range probes {
+		check(t)
+	}
 	if bad == "" {
 		bad = "-"
 	}
@@ -218,8 +223,16 @@ func TestVerifC18(t *testing.T) {
 	sc.Buffer(make([]byte, 1<<20), 1<<26)
 	for sc.Scan() {
 		tok := strings.Fields(sc.Text())
-		if len(tok) != 5 {
+		if len(tok) != 5 && len(tok) != 6 {
 			continue
+		}
+		probes := [][]byte{}
+		if len(tok) == 6 {
+			for _, h := range strings.Split(tok[5], ",") {
+				if b, err := hex.DecodeString(h); err == nil {
+					probes = append(probes, b)
+				}
+			}
 		}
 		if tok[1] == "-" {
 			tok[1] = ""
@@ -234,7 +247,7 @@ func TestVerifC18(t *testing.T) {
 		}
 		fmt.Fprintf(w, "%s BEGIN\n", tok[0])
 		w.Flush()
-		fmt.Fprintln(w, verifC18Case(tok[0], string(re), alpha, la, lf, costLimit))
+		fmt.Fprintln(w, verifC18Case(tok[0], string(re), alpha, la, lf, costLimit, probes))
 		w.Flush()
 	}
 }
